@@ -27,10 +27,11 @@ const c12CorePath = core.ModulePath + "/annotate/internal/core"
 const c12SharedPath = core.ModulePath + "/annotate/shared"
 
 type c12KeyCx struct {
-	r   *core.R
-	s   *c12Sorter
-	pk  *packages.Package
-	pos *types.Var // position field of the location struct
+	r    *core.R
+	s    *c12Sorter
+	pk   *packages.Package
+	pos  *types.Var // position field of the location struct
+	lits map[*ast.FuncLit]*c12Fn
 }
 
 // c12StructField finds an exported field of a named struct by name.
@@ -158,7 +159,11 @@ func c12KeyRule(r *core.R, s *c12Sorter) {
 				return true
 			}
 			nset++
-			origins := cx.origins(s.fn(fi.Obj), call.Args[0], 3)
+			host := s.fn(fi.Obj)
+			if host != nil {
+				host = cx.fnAt(host, parentsOf(r.P, fi), call)
+			}
+			origins := cx.origins(host, call.Args[0], 3)
 			if len(origins) == 0 {
 				unresolved = call.Args[0]
 			}
@@ -212,6 +217,27 @@ func c12KeyRule(r *core.R, s *c12Sorter) {
 			}
 			return true
 		})
+	}
+	for _, fi := range tree {
+		f := s.fn(fi.Obj)
+		if f == nil {
+			continue
+		}
+		par := parentsOf(r.P, fi)
+		for _, lf := range cx.literals(f) {
+			lf := lf
+			inspectNoLit(lf.lit.Body, func(n ast.Node) bool {
+				call, ok := n.(*ast.CallExpr)
+				if !ok || !isMethod(callee(lf.info(), call), c12SharedPath+".Child", "Update") {
+					return true
+				}
+				nsrc++
+				for _, u := range cx.source(lf, call, par, updIndex) {
+					sources[u] = true
+				}
+				return true
+			})
+		}
 	}
 	if nsrc == 0 {
 		r.Anchor("call of (*shared.Child).Update in the annotate tree")
@@ -291,18 +317,21 @@ func (cx *c12KeyCx) originsAt(f *c12Fn, e ast.Expr, depth, level int) []c12Origi
 				return []c12Origin{{fn: f, level: level}}
 			}
 			var out []c12Origin
-			for _, cs := range cx.s.callSites(f) {
+			for _, cs := range cx.callSitesOf(f) {
 				arg := argForParam(info, f.fi, cs.call, o) // info of the callee: it resolves the callee's parameter names
 				if arg == nil {
 					out = append(out, c12Origin{fn: f, level: level})
 					continue
 				}
-				out = append(out, cx.originsAt(cx.s.fn(cs.in.Obj), arg, depth-1, level+1)...)
+				out = append(out, cx.originsAt(cx.siteFn(f, cs), arg, depth-1, level+1)...)
 			}
 			if len(out) == 0 {
 				out = append(out, c12Origin{fn: f, level: level})
 			}
 			return out
+		}
+		if c12Captured(f, o) {
+			return cx.originsAt(f.outer, e, depth, level) // a variable of the function the literal is written in
 		}
 		rhs := c12SingleDef(info, f.fi.Decl.Body, o)
 		if rhs == nil {
@@ -335,12 +364,16 @@ func (cx *c12KeyCx) chains(f *c12Fn, at ast.Node, depth int) [][]c12Frame {
 	head := c12Frame{fn: f, at: at}
 	var out [][]c12Frame
 	if depth > 0 {
-		for _, cs := range cx.s.callSites(f) {
-			g := cx.s.fn(cs.in.Obj)
+		for _, cs := range cx.callSitesOf(f) {
+			g := cx.siteFn(f, cs)
 			if g == nil || g == f {
 				continue
 			}
 			for _, up := range cx.chains(g, cs.call, depth-1) {
+				// a literal invoked by a helper: the helper was entered through the call that passes the literal
+				if cs.via != nil && len(up) > 1 && up[1].at != ast.Node(cs.via) {
+					continue
+				}
 				out = append(out, append([]c12Frame{head}, up...))
 			}
 		}
@@ -357,6 +390,9 @@ func (cx *c12KeyCx) enclosingLoops(chain []c12Frame) []ast.Stmt {
 	for _, fr := range chain {
 		par := parentsOf(cx.r.P, fr.fn.fi)
 		for p := par[fr.at]; p != nil; p = par[p] {
+			if lit, isLit := p.(*ast.FuncLit); isLit && lit == fr.fn.lit {
+				break // the loops around a literal are reached through the call that invokes it
+			}
 			switch l := p.(type) {
 			case *ast.RangeStmt:
 				out = append(out, l)
@@ -401,9 +437,26 @@ func (cx *c12KeyCx) depLoops(chain []c12Frame, level int, e ast.Node, budget int
 			}
 			return true
 		}
-		if rhs := c12SingleDef(info, f.fi.Decl.Body, v); rhs != nil {
+		body := ast.Node(f.fi.Decl.Body)
+		if c12Captured(f, v) {
+			// a parameter of an enclosing literal or function that is a frame further up the chain
+			for j := level + 1; j+1 < len(chain); j++ {
+				g := chain[j].fn
+				if c12ParamPos(g.info(), g.fi.Decl, v) < 0 {
+					continue
+				}
+				if call, ok := chain[j+1].at.(*ast.CallExpr); ok {
+					if arg := argForParam(g.info(), g.fi, call, v); arg != nil {
+						cx.depLoops(chain, j+1, arg, budget-1, out)
+					}
+				}
+				return true
+			}
+			body = f.outer.fi.Decl.Body // a variable of the function the literal is written in
+		}
+		if rhs := c12SingleDef(info, body, v); rhs != nil {
 			cx.depLoops(chain, level, rhs, budget-1, out)
-		} else if call, _, _ := c12CallDef(info, f.fi.Decl.Body, v); call != nil {
+		} else if call, _, _ := c12CallDef(info, body, v); call != nil {
 			cx.depLoops(chain, level, call, budget-1, out)
 		}
 		return true
@@ -542,12 +595,20 @@ func (cx *c12KeyCx) source(f *c12Fn, call *ast.CallExpr, par map[ast.Node]ast.No
 	var escapes []*ast.Ident
 	var badUse ast.Node
 	var badVar types.Object
-	inspectNoLit(body, func(n ast.Node) bool {
+	ast.Inspect(body, func(n ast.Node) bool {
 		id, ok := n.(*ast.Ident)
 		if !ok || !holds(info.Uses[id]) || copyInto[id] {
 			return true
 		}
 		x := info.Uses[id]
+		// a use inside a nested literal (a callback that captures the value) happens, for the ordering against the
+		// Index assignment, where that literal is written
+		usePos := id.Pos()
+		for p := par[id]; p != nil && p != ast.Node(body); p = par[p] {
+			if lit, isLit := p.(*ast.FuncLit); isLit && lit != f.lit {
+				usePos = lit.Pos()
+			}
+		}
 		// the left-hand side of a store is not a use of the value
 		if as, ok := par[id].(*ast.AssignStmt); ok {
 			for _, l := range as.Lhs {
@@ -575,7 +636,7 @@ func (cx *c12KeyCx) source(f *c12Fn, call *ast.CallExpr, par map[ast.Node]ast.No
 		escapes = append(escapes, id)
 		dominated := false
 		for _, st := range sets[x] {
-			if d, ok := f.at(st.as.Pos(), ""); ok && f.dominates(d, id.Pos()) && !(st.as.Pos() <= id.Pos() && id.Pos() < st.as.End()) {
+			if d, ok := f.at(st.as.Pos(), ""); ok && f.dominates(d, usePos) && !(st.as.Pos() <= usePos && usePos < st.as.End()) {
 				dominated = true
 			}
 		}
@@ -598,12 +659,12 @@ func (cx *c12KeyCx) source(f *c12Fn, call *ast.CallExpr, par map[ast.Node]ast.No
 	// one update per (location, child version): the two innermost loops around every use of the update are the loop
 	// that varies the child version and the loop that varies the location
 	for _, use := range escapes {
-		for _, chain := range cx.chains(f, use, 2) {
+		for _, chain := range cx.chains(cx.fnAt(f.declared(), par, use), use, 5) {
 			loops := cx.enclosingLoops(chain)
 			var dv, dl []ast.Stmt
-			cx.depLoops(chain, 0, sel.X, 4, &dv)
+			cx.depLoops(chain, 0, sel.X, 6, &dv)
 			for _, st := range allSets {
-				cx.depLoops(chain, 0, st.rhs, 4, &dl)
+				cx.depLoops(chain, 0, st.rhs, 6, &dl)
 			}
 			pv, pl := c12InnermostIn(loops, dv), c12InnermostIn(loops, dl)
 			switch {
